@@ -206,9 +206,9 @@ theorem stepResidual_phys (M : Static) (F G : ResFn) (s s' : Sim) (dt : Rat)
   have hnl := M.L.nX_lt_len
   have hc1 : ((s.sv.set M.L.nX (s.sv.getD M.L.nX 0 + dt)).take (M.L.nX + 1 + M.L.nU)).getD M.L.iT 0
       = s'.sv.getD M.L.nX 0 := by
-    rw [ht, List.getD_eq_getElem?_getD, List.getElem?_take]
-    simp only [Layout.iT]
-    rw [if_pos (by omega), List.getElem?_set_self (by omega)]
+    have hiT : M.L.iT = M.L.nX := rfl
+    rw [hiT, ht, List.getD_eq_getElem?_getD, List.getElem?_take,
+      if_pos (by omega), List.getElem?_set_self (by omega)]
     rfl
   have hc2 : ((s.sv.set M.L.nX (s.sv.getD M.L.nX 0 + dt)).take (M.L.nX + 1 + M.L.nU)).drop (M.L.nX + 1)
       = (s'.sv.drop (M.L.nX + 1)).take M.L.nU := by
